@@ -397,6 +397,12 @@ theorem inv_step {s s' l} (h : Inv s) (hs : step s l = some s') : Inv s' := by
     · rw [caw_append_other (by simp) (by simp)]; exact h.caw
     · exact nad_append_none hr _ h.nad
     · rw [tt_append_other (by simp) (by simp) (by simp)]; exact h.tt
+  | otherSpawn n =>
+    simp only [step] at hs; simp at hs; subst hs
+    exact ⟨h.ph, h.app, h.bg, h.disc, h.serial, h.caw, h.nad, h.tt⟩
+  | otherLeave =>
+    simp only [step] at hs; split at hs <;> simp at hs; subst hs
+    exact ⟨h.ph, h.app, h.bg, h.disc, h.serial, h.caw, h.nad, h.tt⟩
 
 theorem inv_reach {s} (h : Reach s) : Inv s := by
   induction h with
@@ -877,6 +883,12 @@ theorem inv2_step {s s' l} (h : Inv2 s) (hs : step s l = some s') : Inv2 s' := b
     simp only [step] at hs
     split at hs <;> simp at hs; subst hs
     exact inv2_frame h hline (Nat.le_refl _) (fun k hk => ⟨hk, rfl, rfl⟩) (fun k hk _ => hk) (Or.inr ⟨_, rfl, rfl⟩)
+  | otherSpawn n =>
+    simp only [step] at hs; simp at hs; subst hs
+    exact inv2_frame h hline (Nat.le_refl _) (fun k hk => ⟨hk, rfl, rfl⟩) (fun k hk _ => hk) (Or.inl rfl)
+  | otherLeave =>
+    simp only [step] at hs; split at hs <;> simp at hs; subst hs
+    exact inv2_frame h hline (Nat.le_refl _) (fun k hk => ⟨hk, rfl, rfl⟩) (fun k hk _ => hk) (Or.inl rfl)
 
 
 theorem inv2_reach {s} (h : Reach s) : Inv2 s := by
